@@ -66,6 +66,11 @@ int main(void)
             else p = gp_map_put(map, parse_key(t[1]), val);
             remember(t[1], p);
             printf("e%zu", p ? id_of(p) : 999999999); print_dlog(0); puts("");
+        } else if (!strcmp(t[0], "hputnull") && n == 2 && map && esize == 0) {
+            /* a pointer map may hold a null pointer: what put returns is that element */
+            size_t kl; uint8_t* kb = vp_hex(t[1], &kl);
+            void* p = gp_hash_map_put((GPHashMap*)map, kb, kl, NULL); free(kb);
+            puts(p == NULL ? "returned-null" : "returned-nonnull");
         } else if ((!strcmp(t[0], "get") || !strcmp(t[0], "hget")) && n == 2 && map) {
             void* p;
             if (t[0][0] == 'h') { size_t kl; uint8_t* kb = vp_hex(t[1], &kl); p = gp_hash_map_get((GPHashMap*)map, kb, kl); free(kb); }
